@@ -58,11 +58,15 @@ def cases(draw, tier):
         st.tuples(st.just("profile"), st.sampled_from(["string", "file", "both"])),
         st.tuples(st.just("new_shaper")),
     )
-    ops = [list(o) for o in draw(st.lists(op, min_size=draw(st.sampled_from([1, 2, 2, 3])) if size == "small" else 1, max_size=3 if size == "small" else 2))]
+    ops = [list(o) for o in draw(st.lists(op, min_size=draw(st.sampled_from([1, 2, 2, 3])) if size == "small" else 1, max_size=(3 if tier == "quick" else 5) if size == "small" else 2))]
     if size != "small":
         # the 5 000-line flush belongs to the ShExC serializer; SHACL graphs of that size make the isomorphism oracle too slow
         ops = [[o[0], "ShEx", o[2], o[3]] if o[0] == "shex" else o for o in ops if o[0] != "profile"] or [["shex", "ShEx", "file", 0]]
     case = {"g": g, "cfg": cfg, "ns": ns, "ops": ops}
+    if draw(st.booleans()):
+        case["same_path"] = True        # every call of the history writes to the same file (a later document replaces an earlier one)
+    if draw(st.integers(0, 3)) == 0:
+        case["stale"] = draw(st.sampled_from(["x", "stale line\n" * 400, "PREFIX : <http://stale.org/>\n:Old {\n}\n" * 2500]))   # the file exists already
     if size == "small" and draw(st.integers(0, 2)) == 0:
         case["targets"] = draw(st.lists(st.sampled_from(g["classes"]), min_size=1, max_size=len(g["classes"]), unique=True))
     if size == "small" and "targets" not in case and draw(st.integers(0, 3)) == 0:
@@ -108,9 +112,12 @@ def make_kwargs(case, ns_obj, shared=None):
     return kw
 
 
-def do_call(shaper, op, d, tag):
+def do_call(shaper, op, d, tag, stale=None):
     """returns (string result or None, file text or None)"""
     path = os.path.join(d, "out_%s.txt" % tag)
+    if stale is not None and not os.path.exists(path) and (op[2] if op[0] == "shex" else op[1]) in ("file", "both"):
+        with open(path, "w", encoding="utf-8") as f:
+            f.write(stale)
     if op[0] == "shex":
         _, fmt, sink, thr = op
         skw = dict(output_format=fmt, acceptance_threshold=thr)
@@ -162,6 +169,10 @@ def check(case):
         labels.add("shape-map")
     if len(calls) >= 2:
         labels.add("repeated-calls")
+    if case.get("same_path") and sum(1 for o in calls if (o[2] if o[0] == "shex" else o[1]) in ("file", "both")) >= 2:
+        labels.add("file-rewritten")
+    if case.get("stale"):
+        labels.add("file-existed-before")
     if nt:
         labels.add("nontrivial")
     ns_shared = copy.deepcopy(case["ns"])
@@ -181,7 +192,7 @@ def check(case):
                 fresh = sut.Shaper(**make_kwargs(case, copy.deepcopy(case["ns"])))
                 exp, efile = do_call(fresh, [op[0]] + ([op[1], "string", op[3]] if op[0] == "shex" else ["string"]), d, "m%d" % i)
                 try:
-                    got, gfile = do_call(shaper, op, d, "h%d" % i)
+                    got, gfile = do_call(shaper, op, d, "h" if case.get("same_path") else "h%d" % i, case.get("stale"))
                 except sut.Timeout:
                     raise
                 except Exception as e:
